@@ -1426,7 +1426,20 @@ impl Analyzable for Program {
 
         let assets = self.assets.analyze(self.scope.clone());
 
-        let txs = self.txs.analyze(self.scope.clone());
+        // the scope holds copies of the policy and asset definitions taken before they were
+        // analyzed; the transactions must see the analyzed ones, or lowering a reference to a
+        // definition that mentions a name (policy Q { hash: some_env_var, }) finds it unresolved
+        let mut tx_scope = Scope::new(self.scope.clone());
+
+        for policy in self.policies.iter() {
+            tx_scope.track_policy_def(policy);
+        }
+
+        for asset in self.assets.iter() {
+            tx_scope.track_asset_def(asset);
+        }
+
+        let txs = self.txs.analyze(Some(Rc::new(tx_scope)));
 
         parties + policies + types + aliases + txs + assets
     }
